@@ -13,6 +13,7 @@ from .. import stages, leanb
 from ..common import ROOT
 sys.path.insert(0, ROOT)
 from gen.snippets import corpus
+from gen.cgen import mutate_tokens
 from gen.cgen import Gen
 
 
@@ -35,12 +36,23 @@ def run(ctx):
     for i in range(n):
         g = Gen(random.Random(rng.randrange(1 << 30)), typed=(i % 3 != 0), gnu=(i % 2 == 0), kr=(i % 5 == 0), maxdepth=3 + i % 3)
         cases.append((2 if i % 4 else 3, "a", g.program()))
+    # MALFORMED inputs: the property speaks of "every input that parses without diagnostics" - a malformed text that parses without
+    # diagnostics and comes back with tokens missing was accepted silently (C01: "malformed input is answered with diagnostics")
+    base = [(c, t) for c, t in corpus() if 'R"' not in t]
+    nmut = 6000 if ctx.quick else 120000
+    for i in range(nmut):
+        c, t = base[rng.randrange(len(base))]
+        cases.append((2, c, mutate_tokens(rng, t, rng.randrange(1, 3))))
+    for i in range(40 if ctx.quick else 600):
+        prog = Gen(random.Random(rng.randrange(1 << 30)), gnu=i % 2 == 0, kr=i % 5 == 0).program()
+        for j in range(10):
+            cases.append((2, "a", mutate_tokens(rng, prog, rng.randrange(1, 3))))
     lines = ["%s %s %s" % (opts(m), c, (t.encode() or b" ").hex()) for m, c, t in cases]
     rt = stages.run_harness(ctx, "roundtrip", lines)
     dump = stages.run_harness(ctx, "tree", lines)
     feed = [l if not l.startswith(("CRASH", "HANG")) else "0 ; no-root | foreign=0 | -" for l in dump]
     hyp = leanb.model("unparse", "\n".join(feed) + "\n")
-    nviol = nhyp = nclean = nskip = ntok = 0
+    nviol = nhyp = nclean = nskip = ntok = nknown = 0
     kinds = set()
     skips = collections.Counter()
     for (mode, cat, text), line, r, h in zip(cases, lines, rt, hyp):
@@ -58,6 +70,11 @@ def run(ctx):
         nclean += 1
         ntok += int(f.get("ntok", 0))
         kinds |= set(f.get("kinds", "").split(","))
+        if not r.startswith("ok") and re.match(r"diff@\d+:29/3d$", f.get("tokens", "")) and re.search(r"\)\s*=[^=]", text):
+            # the first token that differs is a `)' of the source where the output has `=': the initializer of a declarator in parentheses
+            ctx.report("paren-declarator-initializer", "the initializer of a parenthesised declarator is stored INSIDE the parentheses: 'int (g) = 1;' is written back as 'int ( g = 1 ) ;' (e.g. %r)" % text[:80], {})
+            nknown += 1
+            continue
         if not r.startswith("ok"):
             nviol += 1
             if nviol <= 3:
@@ -81,7 +98,7 @@ def run(ctx):
                            {"component": "roundtrip", "case": line, "text": text, "theorem": "PsycheModel.Tree.unparse_eq_source"}, no_input=True)
     ctx.cov.update({
         "evaluations": len(cases), "traces_validated_against_impl": nclean, "distinct_nontrivial": len(kinds), "exhaustive": False,
-        "rule": "corpus gen/snippets.py (every operator/punctuator spelling incl. digraphs, every literal form, every declarator x trailing asm-label/attribute combination, every statement and declaration form; stand-alone expressions/statements/declarations and translation units) x modes AlgorithmicAndHeuristic and Heuristic + generated C11/GNU/K&R programs; cases that do not parse cleanly or keep an ambiguity node are skipped and counted; non-trivial = distinct node kinds in cleanly parsed trees",
+        "rule": "corpus gen/snippets.py (every operator/punctuator spelling incl. digraphs, every literal form, every declarator x trailing asm-label/attribute combination, every statement and declaration form; token-adjacency families (all operator pairs that may be neighbours, literal/operator and keyword/operand hazards, __extension__ before every expression kind); stand-alone expressions/statements/declarations and translation units) x modes AlgorithmicAndHeuristic and Heuristic + generated C11/GNU/K&R programs + token-mutated (malformed) corpus entries and programs: whatever parses WITHOUT diagnostics must come back token for token; cases that do not parse cleanly or keep an ambiguity node are skipped and counted; non-trivial = distinct node kinds in cleanly parsed trees",
         "samples": [cases[0][2][:200], cases[len(cases) // 2][2][:200], cases[-1][2][:200]],
     })
     ctx.notes.update({"cleanly_parsed": nclean, "skipped": nskip, "skip_reasons": dict(skips), "source_tokens": ntok, "node_kinds_covered": len(kinds),
